@@ -7,6 +7,7 @@ import (
 	"bufio"
 	"fmt"
 	"io"
+	"os"
 	"os/exec"
 	"strconv"
 	"strings"
@@ -26,6 +27,7 @@ func (r SatResult) String() string { return [...]string{"unsat", "sat", "unknown
 type Solver struct {
 	cmd     *exec.Cmd
 	in      io.WriteCloser
+	w       *bufio.Writer
 	out     *bufio.Reader
 	bin     string
 	args    []string
@@ -34,6 +36,8 @@ type Solver struct {
 	NUnsat  int
 	NUnk    int
 	Time    time.Duration
+	MaxTime time.Duration
+	Slow    int
 	logw    io.Writer
 	timeout int
 }
@@ -67,6 +71,7 @@ func (s *Solver) start() error {
 		return err
 	}
 	s.in = in
+	s.w = bufio.NewWriterSize(in, 1<<16)
 	s.out = bufio.NewReaderSize(out, 1<<16)
 	s.preamble()
 	return nil
@@ -74,7 +79,7 @@ func (s *Solver) start() error {
 
 func (s *Solver) preamble() {
 	if !strings.Contains(s.bin, "cvc5") {
-		s.send(fmt.Sprintf("(set-option :timeout %d)", s.timeout))
+		if os.Getenv("VERIF_NOTIMEOUT") == "" { s.send(fmt.Sprintf("(set-option :timeout %d)", s.timeout)) }
 		s.send("(set-option :produce-models true)")
 	} else {
 		s.send("(set-logic ALL)")
@@ -83,6 +88,7 @@ func (s *Solver) preamble() {
 
 func (s *Solver) Close() {
 	if s.cmd != nil {
+		s.w.Flush()
 		s.in.Close()
 		s.cmd.Process.Kill()
 		s.cmd.Wait()
@@ -94,8 +100,8 @@ func (s *Solver) send(line string) {
 	if s.logw != nil {
 		fmt.Fprintln(s.logw, line)
 	}
-	io.WriteString(s.in, line)
-	io.WriteString(s.in, "\n")
+	s.w.WriteString(line)
+	s.w.WriteByte('\n')
 }
 
 func (s *Solver) Reset() {
@@ -105,6 +111,7 @@ func (s *Solver) Reset() {
 
 // readSexp reads one complete answer (a line, or a balanced s-expression spanning lines).
 func (s *Solver) readSexp() (string, error) {
+	s.w.Flush()
 	var sb strings.Builder
 	depth := 0
 	for {
@@ -135,8 +142,15 @@ func (s *Solver) CheckSat() SatResult {
 	t0 := time.Now()
 	s.send("(check-sat)")
 	ans, err := s.readSexp()
-	s.Time += time.Since(t0)
+	dt := time.Since(t0)
+	s.Time += dt
 	s.Queries++
+	if dt > s.MaxTime {
+		s.MaxTime = dt
+	}
+	if dt > time.Second {
+		s.Slow++
+	}
 	if err != nil {
 		// solver died: restart, report unknown
 		s.Close()
